@@ -16,6 +16,7 @@
 import Asn1.Generated
 import Proofs.StreamWrapper
 import Proofs.StreamIter
+import Proofs.KernelStream
 
 namespace Asn1.C11
 
@@ -148,6 +149,49 @@ theorem complete_kinds_agree (B : Nat) (d : Bytes) (p : Prog ε α) (s : St ε) 
     have h2 : s.setMark .seekable B = { s with mark := s.pos } := by unfold St.setMark; simp
     rw [h1, h2]; exact ih _ hp hp
   | toMark f ih => simp only [run]; exact ih _ _ hm hm
+
+/-! ### at the source level: the methods of `CachingStreamWrapper`, translated from /repo on this run -/
+
+/-- `CachingStreamWrapper.read(n)` of codec/streaming.py (translated by gen/py2lean.py into `GenK.wrapRead`: the
+    `io.BytesIO` cache a value threaded through, the answer of `self._raw.read(...)` a parameter) is the `read` step of the
+    wrapper model about which `wrapper_refines` is stated: same octets handed out, same cache and position afterwards -/
+theorem source_wrapper_read_is_model (w : Wrapper) (n : Nat) (hc : w.cpos ≤ w.cache.length) :
+    GenK.wrapRead (some (Kernels.bytesInts (w.raw.take (n - (bioRead w.cache w.cpos n).length)))) (n : Int) (Kernels.bioOf w) =
+      .ok (some (Kernels.bytesInts (w.read n).1), Kernels.bioOf (w.read n).2) :=
+  Kernels.wrapRead_kernel w n hc
+
+/-- hence, by `read_spec`: whenever wrapper and seekable reference are in step (`Sim`), the translated `read` hands out
+    exactly the octets the seekable stream hands out -/
+theorem source_wrapper_read_like_seekable (w : Wrapper) (r : Ref) (n : Nat) (h : Sim w r) :
+    ∃ cache', GenK.wrapRead (some (Kernels.bytesInts (w.raw.take (n - (bioRead w.cache w.cpos n).length)))) (n : Int)
+        (Kernels.bioOf w) = .ok (some (Kernels.bytesInts (bioRead r.data r.pos n)), cache') := by
+  refine ⟨Kernels.bioOf (w.read n).2, ?_⟩
+  rw [Kernels.wrapRead_kernel w n h.cpos_le, (read_spec w r n h).1]
+
+/-- `read(-1)` -/
+theorem source_wrapper_readall_is_model (w : Wrapper) (hc : w.cpos ≤ w.cache.length) :
+    GenK.wrapRead (some (Kernels.bytesInts w.raw)) (-1) (Kernels.bioOf w) =
+      .ok (some (Kernels.bytesInts w.readAll.1), Kernels.bioOf w.readAll.2) :=
+  Kernels.wrapReadAll_kernel w hc
+
+/-- `peek(n)`: the model's `peek` step -/
+theorem source_wrapper_peek_is_model (w : Wrapper) (n : Nat) (hc : w.cpos ≤ w.cache.length) :
+    GenK.wrapPeek (some (Kernels.bytesInts (w.raw.take (n - (bioRead w.cache w.cpos n).length)))) (n : Int) (Kernels.bioOf w) =
+      .ok (some (Kernels.bytesInts (w.read n).1),
+        Kernels.bioOf { (w.read n).2 with cpos := (w.read n).2.cpos - (w.read n).1.length }) :=
+  Kernels.wrapPeek_kernel w n hc
+
+/-- the `markedPosition` setter: the model's `setMark` step with the buffer size the source uses (8192) - the step the
+    recorded finding S4 is about (`wrapper_renumber_witness`) -/
+theorem source_wrapper_mark_is_model (w : Wrapper) :
+    GenK.wrapSetMark (w.cpos : Int) (Kernels.bioOf w) (w.mark : Int) =
+      .ok (Kernels.bioOf (w.step 8192 .setMark).2, (((w.step 8192 .setMark).2.mark : Nat) : Int)) :=
+  Kernels.wrapSetMark_kernel w
+
+/-- non-vacuity: two octets cached, position 1, `read(3)` takes one from the cache and two from the raw stream -/
+example : GenK.wrapRead (some [7, 8]) 3 ⟨[5, 6], 1⟩ = .ok (some [6, 7, 8], ⟨[5, 6, 7, 8], 4⟩) := by rfl
+example : GenK.wrapPeek (some [7, 8]) 3 ⟨[5, 6], 1⟩ = .ok (some [6, 7, 8], ⟨[5, 6, 7, 8], 1⟩) := by rfl
+example : GenK.wrapRead none 3 ⟨[5, 6], 2⟩ = .ok (none, ⟨[5, 6], 2⟩) := by rfl
 
 /-- every substrate class the property names is routed by `asSeekableStream` to one of the modelled
     kinds (a BytesIO = K1, the object itself = a seekable stream K3, CachingStreamWrapper = K4) or
